@@ -6,7 +6,6 @@ func compilePostReplay(x *Exec, o *Oblig, rb *replayBuilder, decls []string, cal
 	return "", false
 }
 
-func runStructural(L *Loaded, cs *ContractSet, ps *PropSpec) []*Group { return nil }
 
 func runLemmas(L *Loaded, cs *ContractSet, ps *PropSpec, timeout time.Duration, all bool) []*Group {
 	return nil
